@@ -20,8 +20,8 @@ RESULT_FIELDS = ("ret", "outs", "post", "vals", "val", "fwd", "imgs", "toks", "r
                  "terms", "bits", "lines", "support", "chi2m", "c0", "differ", "wpost", "wfwd", "mid", "acq", "ipow", "w", "L")
 
 
-def corrupt(v):
-    """change the first number found (depth first); returns (changed?, value)"""
+def corrupt(v, first=False):
+    """change one number (the last one found, or the first one with first=True); returns (changed?, value)"""
     if isinstance(v, bool):
         return True, (not v)
     if isinstance(v, int):
@@ -31,20 +31,50 @@ def corrupt(v):
     if isinstance(v, str):
         return (True, v + "x") if v else (False, v)
     if isinstance(v, list):
-        for i in range(len(v) - 1, -1, -1):
-            ok, nv = corrupt(v[i])
+        order = range(len(v)) if first else range(len(v) - 1, -1, -1)
+        for i in order:
+            ok, nv = corrupt(v[i], first)
             if ok:
                 return True, v[:i] + [nv] + v[i + 1:]
         return False, v
     if isinstance(v, dict):
-        for k in sorted(v, key=lambda k: (k not in ("post", "out", "ret", "outs", "fwd"), k)):
-            ok, nv = corrupt(v[k])
+        for k in sorted(v, key=lambda k: (k not in RESULT_FIELDS, k)):
+            if k in ("ins", "kind", "obs", "pre", "m", "g", "a", "b", "prog", "qs"):
+                continue                # (inputs: changing them changes the question, not the answer)
+            ok, nv = corrupt(v[k], first)
             if ok:
                 d = dict(v)
                 d[k] = nv
                 return True, d
         return False, v
     return False, v
+
+
+def candidates(v, limit=8):
+    """several single-number corruptions of a value: for dictionaries one per (result) key, for lists at the last and at the
+    first position"""
+    out = []
+    if isinstance(v, dict):
+        pref = ("fwd", "back", "post", "out", "ret", "outs", "vals", "val", "seq", "bwd")
+        for k in sorted(v, key=lambda k: (pref.index(k) if k in pref else 99, k not in RESULT_FIELDS, k)):
+            if k in ("ins", "kind", "obs", "pre", "m", "g", "a", "b", "prog", "qs"):
+                continue
+            ok, nv = corrupt(v[k], False)
+            if ok and nv != v[k]:
+                out.append(dict(v, **{k: nv}))
+    elif isinstance(v, list) and v and isinstance(v[-1], (dict, list)):
+        for i in (len(v) - 1, 0):
+            for c in candidates(v[i], 5):
+                out.append(v[:i] + [c] + v[i + 1:])
+    for first in (False, True):
+        ok, nv = corrupt(v, first)
+        if ok and nv != v:
+            out.append(nv)
+    uniq = []
+    for c in out:
+        if c not in uniq:
+            uniq.append(c)
+    return uniq[:limit]
 
 
 def main(ids):
@@ -72,27 +102,41 @@ def main(ids):
                     seen[key] = r
         print("== %s: %d operation kinds recorded" % (pid, len(seen)))
         for (op, pkg), rec in sorted(seen.items(), key=str):
-            field = next((f for f in RESULT_FIELDS if f in rec), None)
-            if field is None:
+            fields = [f for f in RESULT_FIELDS if f in rec]
+            if not fields:
                 print("   %-14s %-6s (no result field to corrupt)" % (op, pkg))
                 continue
-            ok, nv = corrupt(rec[field])
-            if not ok:
-                print("   %-14s %-6s (nothing numeric in %s)" % (op, pkg, field))
-                continue
-            res, drift = [], []
-            for tag, r in (("orig", rec), ("corrupt", dict(rec, **{field: nv}))):
-                p = os.path.join(wd, "one_%s.ndjson" % tag)
-                open(p, "w").write(json.dumps(r) + "\n")
-                rej = core.judge(prop_cls.trace_module, prop_cls.trace_cfg, [p], "binding_" + pid)
-                res.append(sorted({c for _fi, _li, c in rej if not c.startswith(("Drift_", "KF_"))}))
-                drift.append(sorted({c for _fi, _li, c in rej if c.startswith("Drift_")}))
+            # the untouched record must be accepted; then up to ten corruptions (different result fields, first / last
+            # number) are tried until one is rejected -- a corruption can be a semantic no-op (the exponent of a zero
+            # dyadic) or touch a field that another property judges (C10 does not read forward images)
+            p0 = os.path.join(wd, "one_orig.ndjson")
+            open(p0, "w").write(json.dumps(rec) + "\n")
+            rej0 = core.judge(prop_cls.trace_module, prop_cls.trace_cfg, [p0], "binding_" + pid)
+            res = [sorted({c for _fi, _li, c in rej0 if not c.startswith(("Drift_", "KF_"))}), []]
+            drift = [sorted({c for _fi, _li, c in rej0 if c.startswith("Drift_")}), []]
+            tried, field = 0, None
+            for f in fields:
+                for nv in candidates(rec[f]):
+                    if tried >= 10:
+                        continue
+                    tried += 1
+                    p1 = os.path.join(wd, "one_corrupt.ndjson")
+                    open(p1, "w").write(json.dumps(dict(rec, **{f: nv})) + "\n")
+                    rej = core.judge(prop_cls.trace_module, prop_cls.trace_cfg, [p1], "binding_" + pid)
+                    r1 = sorted({c for _fi, _li, c in rej if not c.startswith(("Drift_", "KF_"))})
+                    d1 = sorted({c for _fi, _li, c in rej if c.startswith("Drift_")})
+                    if r1 or (d1 and not drift[0]):
+                        res[1], drift[1], field = r1, d1, f
+                        break
+                if field:
+                    break
+            field = field or fields[0]
             if res[1]:
-                verdict = "REJECTED by " + ",".join(res[1])
+                verdict = "REJECTED by " + ",".join(res[1]) + ("" if tried == 1 else "  (corruption no. %d)" % tried)
             elif drift[1] and not drift[0]:
                 verdict = "reported as model drift by " + ",".join(drift[1]) + " (an operation no property covers)"
             else:
-                verdict = "ACCEPTED (!)"
+                verdict = "ACCEPTED (!) after %d corruptions" % tried
                 bad += 1
             if res[0]:
                 verdict += "   [untouched record rejected too: %s]" % ",".join(res[0])
